@@ -229,6 +229,36 @@ def run_sessions(run, specs, oracle=None, relevant=0xFF, model_verify=True, jobs
     for s, o in zip(specs, obs):
         if oracle:
             oracle(run, s, o)
+        # the parameter set a statement carries must hand out bits * capacity generators per vector (what the constructor was given)
+        for mi, (ms, mo) in enumerate(zip(s["members"], o["members"])):
+            g = mo.get("gens")
+            if g and not s.get("_beyond_constructors") and isinstance(ms.get("bits"), int) and isinstance(ms.get("cap"), int):
+                want = ms["bits"] * ms["cap"]
+                if len(g["G"]) != want or len(g["Hv"]) != want:
+                    run.violation(f"the parameter set carried by the statement of member {mi} hands out {len(g['G'])} / {len(g['Hv'])} vector generators; "
+                                  f"bits * capacity = {ms['bits']} * {ms['cap']} = {want} were requested (statement of {len(ms.get('commit') or [])} commitment(s))",
+                                  {"kind": "session", "spec": strip(s), "member": mi})
+                    break
+        # ... and those generators are pairwise distinct points (the premise of binding / soundness: a vector commitment over two equal
+        # generators binds only the sum of their coefficients); members whose specs ask for degenerate generators are exempt
+        for mi, (ms, mo) in enumerate(zip(s["members"], o["members"])):
+            g = mo.get("gens")
+            if not g or s.get("_beyond_constructors") or any(ms.get(k) for k in ("h_scale", "gb_scale", "gb0_eq_cH", "gb_eq", "gbc_scale", "hc_scale")):
+                continue
+            names = ["H"] + [f"Gb[{k}]" for k in range(len(g["Gb"]))] + [f"G[{i}]" for i in range(len(g["G"]))] + [f"H[{i}]" for i in range(len(g["Hv"]))]
+            encs = [p_.get("enc") for p_ in [g["H"]] + g["Gb"] + g["G"] + g["Hv"]]
+            if None in encs:
+                continue
+            seen = {}
+            for nm, e in zip(names, encs):
+                if e in seen:
+                    run.violation(f"two generators of the parameter set of member {mi} are the same point: {seen[e]} and {nm} (bits={ms.get('bits')}, capacity={ms.get('cap')}, "
+                                  f"T={ms.get('T')}); commitments over them bind only the sum of the two coefficients", {"kind": "session", "spec": strip(s), "member": mi})
+                    break
+                seen[e] = nm
+            else:
+                continue
+            break
         for vi, v in enumerate(o["verifies"]):
             if v["result"].startswith("panic") and not s.get("_beyond_constructors"):
                 run.violation(f"verification panicked: {v['result'][:200]}", {"kind": "session", "spec": strip(s), "verify": vi})
